@@ -29,7 +29,8 @@
  *   fences          __atomic_thread_fence(mo), __sync_synchronize() (= seq_cst fence), __atomic_signal_fence = nothing.
  *   Weak memory (cbmc --mm tso|pso): the x86-64 mapping is modelled -- every RMW, every SEQ_CST store and every
  *   SEQ_CST / __sync_synchronize fence carries a full __CPROVER_fence; loads and weaker stores are plain accesses.
- *   Under the default --mm sc the fence is a no-op.
+ *   The fence is emitted OUTSIDE the indivisible section (after a SEQ_CST store; before and after an RMW): measured, CBMC's
+ *   tso encoding ignores a fence placed inside the same atomic section as the store.  Under --mm sc the fence is a no-op.
  *
  * SWITCHES (all optional)
  *   -DVMA_REQUIRE_SEQ_CST   every __atomic_* call asserts "P atomics: memory order is __ATOMIC_SEQ_CST" (C04; not for spinlocks).
@@ -37,7 +38,7 @@
  *                           Shared writes: meant for sequential harnesses.
  *   -DVMA_PRE_HOOK=fn       `void fn(const volatile void *word)` is called BEFORE every operation, outside the indivisible
  *                           section: preemption point for sequential interference / nested-atomic emulations (C04 interference
- *                           harness, C05).  Default: nothing.
+ *                           harness, C05).  Fences call it with word == NULL.  Default: nothing.
  *   -DVMA_POST_HOOK=fn      same, AFTER every operation.
  *   -DVMA_HB                ghost happens-before tracker (C11 release/acquire synchronisation), see below.
  *   -DVMA_NO_ATOMIC_SECTION sequential harnesses only: do not emit __CPROVER_atomic_begin/end (saves nothing semantically).
@@ -52,8 +53,8 @@
  *     fence release: relfence[t] = seen[t];  fence acquire: seen[t] |= acqpend[t];  acq_rel/seq_cst: both.
  *     failed compare_exchange = load with the failure order.
  *   Harness API:
- *     VMA_HB_THREAD(t)          first statement of thread t (t literal, 0 <= t < VMA_NT (default 4)); sets vma_tid.
- *     vma_hb_track(p)           BEFORE the first spawn: register atomic word p (at most VMA_NLOC, default 4).  Operations on
+ *     VMA_HB_THREAD(t)          first statement of thread t (t literal, 0 <= t < 4); sets vma_tid.
+ *     vma_hb_track(p)           BEFORE the first spawn: register atomic word p (at most 4).  Operations on
  *                               unregistered words synchronise NOTHING (can cause false race alarms, never hides a race).
  *     VMA_HB_FORK(child)        in the parent right before spawning thread `child`: seen[child] = seen[me].
  *     VMA_HB_JOIN(child)        in the parent after it has observed the end of `child`: seen[me] |= seen[child].
@@ -127,64 +128,82 @@ int vma_calls, vma_rmw_calls, vma_weakest = __ATOMIC_SEQ_CST;
 
 /* ---------------------------------------------------------------- ghost happens-before tracker */
 #ifdef VMA_HB
-#ifndef VMA_NT
+/* Implementation notes (measured by agent conc): CBMC emits read events for EVERY element of a shared array when one element is
+ * written, so all ghost state is individual scalars selected by `switch` on the (literal) thread id / word slot; the word lookup
+ * (pointer compares) is done BEFORE the indivisible section (a pointer-typed shared read inside a section was seen to return a stale
+ * value). */
 #define VMA_NT 4
-#endif
-#ifndef VMA_NLOC
 #define VMA_NLOC 4
-#endif
 extern __CPROVER_thread_local int vma_tid;
-extern unsigned vma_seen[VMA_NT], vma_relf[VMA_NT], vma_acqp[VMA_NT], vma_L[VMA_NLOC], vma_done;
-extern const volatile void *vma_loc[VMA_NLOC];
+extern unsigned vma_seen0, vma_seen1, vma_seen2, vma_seen3;     /* events that happen-before the current point of thread t */
+extern unsigned vma_relf0, vma_relf1, vma_relf2, vma_relf3;     /* snapshot at the last release fence */
+extern unsigned vma_acqp0, vma_acqp1, vma_acqp2, vma_acqp3;     /* sets read by relaxed loads, pending an acquire fence */
+extern unsigned vma_L0, vma_L1, vma_L2, vma_L3, vma_done;       /* per tracked word: set published by its release sequence */
+extern const volatile void *vma_loc0, *vma_loc1, *vma_loc2, *vma_loc3;
 extern int vma_nloc;
 #ifdef VMA_IMPL
 __CPROVER_thread_local int vma_tid;
-unsigned vma_seen[VMA_NT], vma_relf[VMA_NT], vma_acqp[VMA_NT], vma_L[VMA_NLOC], vma_done;
-const volatile void *vma_loc[VMA_NLOC];
+unsigned vma_seen0, vma_seen1, vma_seen2, vma_seen3, vma_relf0, vma_relf1, vma_relf2, vma_relf3, vma_acqp0, vma_acqp1, vma_acqp2, vma_acqp3;
+unsigned vma_L0, vma_L1, vma_L2, vma_L3, vma_done;
+const volatile void *vma_loc0, *vma_loc1, *vma_loc2, *vma_loc3;
 int vma_nloc;
 #endif
+#define VMA_GET4(name, i)    ((i) == 0 ? name##0 : (i) == 1 ? name##1 : (i) == 2 ? name##2 : name##3)
+#define VMA_SET4(name, i, v) do { unsigned vma_sv_ = (v); switch (i) { case 0: name##0 = vma_sv_; break; case 1: name##1 = vma_sv_; break; \
+                                  case 2: name##2 = vma_sv_; break; default: name##3 = vma_sv_; break; } } while (0)
 static inline void vma_hb_track(const volatile void *p) {
-  __CPROVER_assert(vma_nloc < VMA_NLOC, "P atomics model: too many tracked words (raise VMA_NLOC)");
-  vma_loc[vma_nloc++] = p;
+  __CPROVER_assert(vma_nloc < VMA_NLOC, "P atomics model: too many tracked words (max 4)");
+  switch (vma_nloc) { case 0: vma_loc0 = p; break; case 1: vma_loc1 = p; break; case 2: vma_loc2 = p; break; default: vma_loc3 = p; break; }
+  vma_nloc++;
 }
-/* kind: 0 load, 1 store, 2 RMW */
-static inline void vma_hb_op(const volatile void *p, int kind, int mo) {
-  int w = -1;
-  if (VMA_NLOC > 0 && vma_nloc > 0 && vma_loc[0] == p) w = 0;
-  if (VMA_NLOC > 1 && vma_nloc > 1 && vma_loc[1] == p) w = 1;
-  if (VMA_NLOC > 2 && vma_nloc > 2 && vma_loc[2] == p) w = 2;
-  if (VMA_NLOC > 3 && vma_nloc > 3 && vma_loc[3] == p) w = 3;
+static inline int vma_hb_lookup(const volatile void *p) {
+  if (p == 0) return -1;
+  if (vma_loc0 == p) return 0;
+  if (vma_loc1 == p) return 1;
+  if (vma_loc2 == p) return 2;
+  if (vma_loc3 == p) return 3;
+  return -1;
+}
+/* w: slot of the word (-1 = untracked); kind: 0 load, 1 store, 2 RMW */
+static inline void vma_hb_op(int w, int kind, int mo) {
   if (w < 0) return;
+  int t = vma_tid;
   if (kind != 1) { /* reads */
-    if (VMA_IS_ACQ(mo)) vma_seen[vma_tid] |= vma_L[w]; else vma_acqp[vma_tid] |= vma_L[w];
+    unsigned l = VMA_GET4(vma_L, w);
+    if (VMA_IS_ACQ(mo)) VMA_SET4(vma_seen, t, VMA_GET4(vma_seen, t) | l); else VMA_SET4(vma_acqp, t, VMA_GET4(vma_acqp, t) | l);
   }
   if (kind != 0) { /* writes */
-    unsigned pub = VMA_IS_REL(mo) ? vma_seen[vma_tid] : vma_relf[vma_tid];
-    if (kind == 1) vma_L[w] = pub; else vma_L[w] |= pub;
+    unsigned pub = VMA_IS_REL(mo) ? VMA_GET4(vma_seen, t) : VMA_GET4(vma_relf, t);
+    if (kind == 1) VMA_SET4(vma_L, w, pub); else VMA_SET4(vma_L, w, VMA_GET4(vma_L, w) | pub);
   }
 }
 static inline void vma_hb_fence(int mo) {
-  if (VMA_IS_ACQ(mo)) vma_seen[vma_tid] |= vma_acqp[vma_tid];
-  if (VMA_IS_REL(mo)) vma_relf[vma_tid] = vma_seen[vma_tid];
+  int t = vma_tid;
+  if (VMA_IS_ACQ(mo)) VMA_SET4(vma_seen, t, VMA_GET4(vma_seen, t) | VMA_GET4(vma_acqp, t));
+  if (VMA_IS_REL(mo)) VMA_SET4(vma_relf, t, VMA_GET4(vma_seen, t));
 }
 static inline int vma_hb_access(unsigned prior, int ev) {
-  int ok = ((prior & vma_done & ~vma_seen[vma_tid]) == 0);
+  int t = vma_tid;
+  unsigned seen = VMA_GET4(vma_seen, t);
+  int ok = ((prior & vma_done & ~seen) == 0);
   vma_done |= 1u << ev;
-  vma_seen[vma_tid] |= 1u << ev;
+  VMA_SET4(vma_seen, t, seen | (1u << ev));
   return ok;
 }
 #define VMA_HB_THREAD(t)         (vma_tid = (t))
-#define VMA_HB_FORK(child)       (vma_seen[(child)] = vma_seen[vma_tid])
-#define VMA_HB_JOIN(child)       (vma_seen[vma_tid] |= vma_seen[(child)])
+#define VMA_HB_FORK(child)       VMA_SET4(vma_seen, (child), VMA_GET4(vma_seen, vma_tid))
+#define VMA_HB_JOIN(child)       VMA_SET4(vma_seen, vma_tid, VMA_GET4(vma_seen, vma_tid) | VMA_GET4(vma_seen, (child)))
 #define VMA_HB_ACCESS(prior, ev) vma_hb_access((prior), (ev))
-#define VMA_HB_OP(p, kind, mo)   vma_hb_op((const volatile void *) (p), (kind), (mo))
+#define VMA_HB_LOOKUP(p)         vma_hb_lookup((const volatile void *) (p))   /* call OUTSIDE the indivisible section */
+#define VMA_HB_OP(w, kind, mo)   vma_hb_op((w), (kind), (mo))
 #define VMA_HB_FENCE(mo)         vma_hb_fence((mo))
 #else
 #define VMA_HB_THREAD(t)         ((void) 0)
 #define VMA_HB_FORK(child)       ((void) 0)
 #define VMA_HB_JOIN(child)       ((void) 0)
 #define VMA_HB_ACCESS(prior, ev) (1)
-#define VMA_HB_OP(p, kind, mo)   ((void) 0)
+#define VMA_HB_LOOKUP(p)         (-1)
+#define VMA_HB_OP(w, kind, mo)   ((void) 0)
 #define VMA_HB_FENCE(mo)         ((void) 0)
 #endif
 
@@ -194,36 +213,36 @@ static inline int vma_hb_access(unsigned prior, int ev) {
 
 #define VMA_LOAD(p, mo) __extension__({ \
   __typeof__(p) vma_p_ = (p); VMA_VAL_T(vma_p_) vma_r_; int vma_mo_ = (mo); \
-  VMA_CHECK_MO(vma_mo_); VMA_PRE(vma_p_); \
-  VMA_BEGIN(); VMA_CNT(vma_mo_, 0); vma_r_ = *vma_p_; VMA_HB_OP(vma_p_, 0, vma_mo_); VMA_END(); \
+  VMA_CHECK_MO(vma_mo_); VMA_PRE(vma_p_); int vma_w_ = VMA_HB_LOOKUP(vma_p_); (void) vma_w_; \
+  VMA_BEGIN(); VMA_CNT(vma_mo_, 0); vma_r_ = *vma_p_; VMA_HB_OP(vma_w_, 0, vma_mo_); VMA_END(); \
   VMA_POST(vma_p_); vma_r_; })
 
 #define VMA_STORE(p, v, mo) __extension__({ \
   __typeof__(p) vma_p_ = (p); VMA_VAL_T(vma_p_) vma_v_ = (VMA_VAL_T(vma_p_)) (v); int vma_mo_ = (mo); \
-  VMA_CHECK_MO(vma_mo_); VMA_PRE(vma_p_); \
-  VMA_BEGIN(); VMA_CNT(vma_mo_, 0); *vma_p_ = vma_v_; VMA_HB_OP(vma_p_, 1, vma_mo_); \
-  if (vma_mo_ == __ATOMIC_SEQ_CST) VMA_FULL_FENCE(); VMA_END(); \
+  VMA_CHECK_MO(vma_mo_); VMA_PRE(vma_p_); int vma_w_ = VMA_HB_LOOKUP(vma_p_); (void) vma_w_; \
+  VMA_BEGIN(); VMA_CNT(vma_mo_, 0); *vma_p_ = vma_v_; VMA_HB_OP(vma_w_, 1, vma_mo_); VMA_END(); \
+  if (vma_mo_ == __ATOMIC_SEQ_CST) VMA_FULL_FENCE(); \
   VMA_POST(vma_p_); (void) 0; })
 
 /* generic RMW: NEW is an expression over vma_o_ (old value) and vma_v_ (operand); RET selects old/new */
 #define VMA_RMW(p, v, mo, NEW, RET) __extension__({ \
   __typeof__(p) vma_p_ = (p); VMA_VAL_T(vma_p_) vma_o_, vma_n_, vma_v_ = (VMA_VAL_T(vma_p_)) (v); int vma_mo_ = (mo); \
-  VMA_CHECK_MO(vma_mo_); VMA_PRE(vma_p_); \
+  VMA_CHECK_MO(vma_mo_); VMA_PRE(vma_p_); int vma_w_ = VMA_HB_LOOKUP(vma_p_); (void) vma_w_; VMA_FULL_FENCE(); \
   VMA_BEGIN(); VMA_CNT(vma_mo_, 1); vma_o_ = *vma_p_; vma_n_ = (VMA_VAL_T(vma_p_)) (NEW); *vma_p_ = vma_n_; \
-  VMA_HB_OP(vma_p_, 2, vma_mo_); VMA_FULL_FENCE(); VMA_END(); \
+  VMA_HB_OP(vma_w_, 2, vma_mo_); VMA_END(); VMA_FULL_FENCE(); \
   VMA_POST(vma_p_); RET; })
 
 #define VMA_CAS(p, e, d, smo, fmo) __extension__({ \
   __typeof__(p) vma_p_ = (p); __typeof__(e) vma_e_ = (e); VMA_VAL_T(vma_p_) vma_o_, vma_d_ = (VMA_VAL_T(vma_p_)) (d); \
   int vma_smo_ = (smo), vma_fmo_ = (fmo); _Bool vma_ok_; \
-  VMA_CHECK_MO(vma_smo_); VMA_CHECK_MO(vma_fmo_); VMA_PRE(vma_p_); \
+  VMA_CHECK_MO(vma_smo_); VMA_CHECK_MO(vma_fmo_); VMA_PRE(vma_p_); int vma_w_ = VMA_HB_LOOKUP(vma_p_); (void) vma_w_; VMA_FULL_FENCE(); \
   VMA_BEGIN(); VMA_CNT(vma_smo_ < vma_fmo_ ? vma_smo_ : vma_fmo_, 1); vma_o_ = *vma_p_; vma_ok_ = (vma_o_ == *vma_e_); \
-  if (vma_ok_) { *vma_p_ = vma_d_; VMA_HB_OP(vma_p_, 2, vma_smo_); } else { *vma_e_ = vma_o_; VMA_HB_OP(vma_p_, 0, vma_fmo_); } \
-  VMA_FULL_FENCE(); VMA_END(); \
+  if (vma_ok_) { *vma_p_ = vma_d_; VMA_HB_OP(vma_w_, 2, vma_smo_); } else { *vma_e_ = vma_o_; VMA_HB_OP(vma_w_, 0, vma_fmo_); } \
+  VMA_END(); VMA_FULL_FENCE(); \
   VMA_POST(vma_p_); vma_ok_; })
 
-#define VMA_FENCE(mo) __extension__({ int vma_mo_ = (mo); \
-  VMA_BEGIN(); VMA_HB_FENCE(vma_mo_); if (vma_mo_ == __ATOMIC_SEQ_CST) VMA_FULL_FENCE(); VMA_END(); (void) 0; })
+#define VMA_FENCE(mo) __extension__({ int vma_mo_ = (mo); VMA_PRE(0); \
+  VMA_BEGIN(); VMA_HB_FENCE(vma_mo_); VMA_END(); if (vma_mo_ == __ATOMIC_SEQ_CST) VMA_FULL_FENCE(); VMA_POST(0); (void) 0; })
 
 /* ---- __atomic_* */
 #define __atomic_load_n(p, mo)          VMA_LOAD(p, mo)
